@@ -78,6 +78,9 @@ SEEDS = [
     [(('option', STRING), ('Some', 'x')), (('pair', OI, STRING), (('Some', 1), 'a'))],
     [(('list', STRING), ('x',)), (('pair', NAT, ('pair', LI, BOOL)), (1, ((2, 3), True)))],
     [(('or', STRING, BYTES), ('R', b'\x00')), (('pair', NAT, ('pair', ('or', INT, NAT), BOOL)), (1, (('L', 2), True)))],
+    # bindings whose value is a falsy Python object ("" / False) next to "absent"
+    [(INT, 2), (('option', STRING), ('Some', '')), (('map', INT, STRING), ((1, ''), (2, '')))],
+    [(STRING, ''), (('option', BOOL), ('Some', False)), (('map', STRING, BOOL), (('', False), ('a', True)))],
 ]
 
 TYPE_ARGS = [INT, NAT, STRING, PII, OI, LI]
